@@ -260,6 +260,15 @@ fn eval_stmt(
                     .context(EvalForIterFailed)?;
 
             let pairs = value_to_pairs(&iter_val.v)
+                    .map_err(|source| {
+                        let (_, (line, col)) = iter;
+
+                        Error::AtLoc{
+                            source: Box::new(source),
+                            line: *line,
+                            col: *col,
+                        }
+                    })
                     .context(ConvertForIterToPairsFailed)?;
 
             for (key, value) in pairs {
